@@ -274,11 +274,13 @@ def sname(i):
 
 
 def sidx(name):
+    """the index behind an instance name - read off the shape of the name, so that a graph named in
+    one style can still be printed while another style is in force"""
     if name == SOURCE:
         return 0
-    if NAME_STYLE == "short":
-        if len(name) == 1:
-            return 2 * (ord(name) - 96)
+    if len(name) == 1 and name.isalpha():
+        return 2 * (ord(name) - 96)
+    if name.startswith("abcdefgh") and name[8:].isdigit():
         return int(name[8:])
     return int(name[1:])
 
